@@ -268,6 +268,21 @@ func (p c20) checkFile(unit int, fseed int64, src string, exact bool, only int, 
 	if only >= 0 {
 		offs = []int{only}
 	}
+	type keptSig struct {
+		sig  *lang.FunctionSignature
+		dump string
+		q    core.Query
+		unit []byte
+		path string
+	}
+	var kept []keptSig
+	sigDump := func(s *lang.FunctionSignature) string {
+		var ps []string
+		for _, pr := range s.Parameters {
+			ps = append(ps, pr.Name+"|"+pr.Description.Value)
+		}
+		return fmt.Sprintf("%s active=%d [%s] %s", s.Name, s.ActiveParameter, strings.Join(ps, ";"), s.Description.Value)
+	}
 	one := func(path string, off int) {
 		// the model reads the signatures as they were declared, not the copies handed to the library
 		funcs := map[string]map[string]schema.FunctionSignature{"/sig": gen.Functions(), "/sig2": c20OtherFunctions()}[path]
@@ -284,6 +299,10 @@ func (p c20) checkFile(unit int, fseed int64, src string, exact bool, only int, 
 		}
 		sig, _ := r.Value.(*lang.FunctionSignature)
 		unitJSON := mustJSON(map[string]interface{}{"file_seed": fseed, "source": src, "byte": off, "exact": exact, "path": path})
+		if sig != nil && len(kept) < 600 {
+			// an answer is the caller's: it is looked at again after all later requests
+			kept = append(kept, keptSig{sig, sigDump(sig), q, unitJSON, path})
+		}
 		viol := func(sg, what, exp string) {
 			obs := "no signature"
 			if sig != nil {
@@ -427,6 +446,24 @@ func (p c20) checkFile(unit int, fseed int64, src string, exact bool, only int, 
 				continue
 			}
 			one(path, off)
+		}
+	}
+	if only >= 0 {
+		// (single-cursor replay: the neighbouring cursors are asked too, so that a later
+		// request exists)
+		for _, d := range []int{-2, -1, 1, 2, 3} {
+			for _, path := range ws.Order {
+				if pos, ok := tab.At(only + d); ok {
+					env.Run(core.Query{Kind: core.QSignature, Path: path, File: "main.tf", Pos: pos})
+				}
+			}
+		}
+	}
+	for _, k := range kept {
+		rep.Count("answers_looked_at_again", 1)
+		if now := sigDump(k.sig); now != k.dump {
+			rep.Violation(&runner.Witness{Sig: "SIG answer-changed-by-later-requests", What: "a signature returned earlier reads differently after later signature requests on the same path context (the answer is shared with later answers)",
+				Unit: k.unit, Files: map[string]string{k.path + "/main.tf": src}, Query: k.q.String(), Expected: "as returned: " + k.dump, Observed: "after later requests: " + now})
 		}
 	}
 }
